@@ -28,6 +28,8 @@ pub struct TypeDef {
     /// struct: (field, rust type); enum: (variant, "")
     pub members: Vec<(String, String)>,
     pub rename_all: bool,
+    /// declared inside `pub mod dto_<name> { use super::*; … }` and re-exported with `pub use`
+    pub inline: bool,
 }
 
 #[derive(Clone, Debug, PartialEq, Eq, Hash)]
@@ -150,7 +152,7 @@ pub fn gen_project(t: &mut Tape) -> Project {
             }
         }
         let rename_all = t.chance(1, 4);
-        types.push(TypeDef { name, is_enum, members, rename_all });
+        types.push(TypeDef { name, is_enum, members, rename_all, inline: false });
     }
     let structs: Vec<TypeDef> = types.iter().filter(|x| !x.is_enum).cloned().collect();
     let mut cmds: Vec<Cmd> = vec![];
@@ -210,14 +212,27 @@ pub fn gen_project(t: &mut Tape) -> Project {
         };
         files[f].items.push(Item { kind: ItemKind::Cmd(c), noise: Noise::default() });
     }
+    // later addition, drawn last (an exhausted tape yields 0 = unchanged): some types live in an
+    // inline module of their file
+    if t.pick(3) == 2 {
+        for f in files.iter_mut() {
+            for it in f.items.iter_mut() {
+                if let ItemKind::Type(ty) = &mut it.kind {
+                    if t.pick(2) == 1 {
+                        ty.inline = true;
+                    }
+                }
+            }
+        }
+    }
     Project { mode, files }
 }
 
 /// a fixed three-file project (the smallest shape that is non-trivial)
 pub fn fixed_project(mode: &'static str) -> Project {
-    let user = TypeDef { name: "User".into(), is_enum: false, members: vec![("id".into(), "i32".into()), ("name".into(), "String".into())], rename_all: false };
-    let order = TypeDef { name: "Order".into(), is_enum: false, members: vec![("id".into(), "i32".into()), ("owner".into(), "User".into())], rename_all: false };
-    let status = TypeDef { name: "Status".into(), is_enum: true, members: vec![("Active".into(), "".into()), ("Closed".into(), "".into())], rename_all: false };
+    let user = TypeDef { name: "User".into(), is_enum: false, members: vec![("id".into(), "i32".into()), ("name".into(), "String".into())], rename_all: false, inline: false };
+    let order = TypeDef { name: "Order".into(), is_enum: false, members: vec![("id".into(), "i32".into()), ("owner".into(), "User".into())], rename_all: false, inline: false };
+    let status = TypeDef { name: "Status".into(), is_enum: true, members: vec![("Active".into(), "".into()), ("Closed".into(), "".into())], rename_all: false, inline: false };
     let c1 = Cmd { name: "get_user".into(), is_async: false, params: vec![("id".into(), "i32".into())], ret: Some("User".into()), channel: None, emits: vec![] };
     let c2 = Cmd { name: "list_orders".into(), is_async: true, params: vec![("status".into(), "Status".into())], ret: Some("Vec<Order>".into()), channel: None, emits: vec![("orders-listed".into(), "1".into())] };
     let c3 = Cmd { name: "save_user".into(), is_async: false, params: vec![("user".into(), "User".into())], ret: Some("Result<(), String>".into()), channel: None, emits: vec![("user-saved".into(), "&user".into())] };
@@ -247,6 +262,9 @@ fn render_item(it: &Item, out: &mut String) {
             out.push('\n');
         }
         ItemKind::Type(ty) => {
+            if ty.inline {
+                out.push_str(&format!("pub mod dto_{} {{\nuse super::*;\n\n", ty.name.to_lowercase()));
+            }
             if it.noise.doc {
                 out.push_str(&format!("/// {} as it is sent to the frontend.\n/// Keep in sync with the UI.\n", ty.name));
             }
@@ -279,6 +297,9 @@ fn render_item(it: &Item, out: &mut String) {
                 }
             }
             out.push_str("}\n\n");
+            if ty.inline {
+                out.push_str(&format!("}}\n\npub use dto_{}::*;\n\n", ty.name.to_lowercase()));
+            }
         }
         ItemKind::Cmd(c) => {
             if it.noise.doc {
@@ -476,6 +497,27 @@ pub fn t2_decoys(t: &mut Tape, p: &Project) -> (Project, Vec<String>) {
         let pos = t.pick(q.files[fi].items.len() + 1);
         q.files[fi].items.insert(pos, Item { kind: ItemKind::Decoy(text), noise: Noise::default() });
         ops.insert(op);
+    }
+    // later addition, drawn last: a private inline module with a non-serde struct named like a
+    // project type that lives in an inline module of the same file, placed in front of it (it is
+    // not re-exported, so every mention of the name still means the serde type)
+    if t.pick(2) == 1 {
+        let mut spots = vec![];
+        for (fi, f) in q.files.iter().enumerate() {
+            for (ii, it) in f.items.iter().enumerate() {
+                if let ItemKind::Type(ty) = &it.kind {
+                    if ty.inline {
+                        spots.push((fi, ii, ty.name.clone()));
+                    }
+                }
+            }
+        }
+        if !spots.is_empty() {
+            let (fi, ii, name) = spots[t.pick(spots.len())].clone();
+            let text = format!("mod runtime_{} {{\n    #[derive(Debug)]\n    pub struct {} {{\n        pub handle: usize,\n    }}\n}}\n", name.to_lowercase(), name);
+            q.files[fi].items.insert(ii, Item { kind: ItemKind::Decoy(text), noise: Noise::default() });
+            ops.insert("non_serde_namesake_in_earlier_inline_module");
+        }
     }
     (q, ops.into_iter().map(String::from).collect())
 }
